@@ -8,7 +8,9 @@
 
      - Judge(record) = "ok"  : the acceptor takes the transition;
      - otherwise             : the record is REJECTED -- a line  REJECT {line, pid, rule, event, ...}  is
-                               printed, and the rest of that program is skipped (the next Reset resumes).
+                               printed, and the rest of that program is skipped (the next Reset resumes);
+                               only a wrong / spurious / missing selfdestruct notification is reported
+                               and the walk continues with the same program.
 
    There is exactly one successor per state, so TLC walks a single path; the last action prints an INFO line
    with the number of records consumed and per-kind counters (vacuity guard of checks/inspector.py).  The
@@ -78,9 +80,30 @@ Good ==
     /\ stats' = Mark(Ev, stats)
     /\ l' = l + 1 /\ UNCHANGED <<pid, skip>>
 
+(* A rejected selfdestruct notification (or a missing one) does not disturb the frame / step structure, so the
+   walk reports it and carries on with the same program: the other properties are still judged on the rest of
+   the trace (on a tree that breaks C30 this keeps C25 / C28 / C29 fully checked). *)
+SDRules == {"selfdestruct_without_SELFDESTRUCT_instruction", "selfdestruct_reported_twice",
+            "selfdestruct_for_failed_instruction", "selfdestruct_contract_is_not_executing_contract",
+            "selfdestruct_target_is_not_stack_top", "selfdestruct_value_is_not_contract_balance"}
+BadSelfDestruct ==          \* the notification is dropped (if one was owed, it counts as delivered)
+    /\ InRange /\ Ev.e = "SelfDestruct" /\ ~skip
+    /\ Judge(Ev) \in SDRules
+    /\ Reject(Judge(Ev))
+    /\ owed' = "none" /\ lastev' = "SelfDestruct"
+    /\ stats' = Bump(stats, "rejected") /\ l' = l + 1
+    /\ UNCHANGED <<phase, fork, glimit, frames, cur, created, topres, enddg, hist, pid, skip>>
+MissingSelfDestruct ==      \* reported; the record at l is judged again without the obligation
+    /\ InRange /\ Ev.e # "Reset" /\ ~skip
+    /\ Judge(Ev) = "selfdestruct_missing"
+    /\ Reject("selfdestruct_missing")
+    /\ owed' = "none"
+    /\ stats' = Bump(stats, "rejected")
+    /\ UNCHANGED <<phase, fork, glimit, frames, cur, lastev, created, topres, enddg, hist, pid, skip, l>>
+
 Bad ==
     /\ InRange /\ Ev.e # "Reset" /\ ~skip
-    /\ Judge(Ev) # "ok"
+    /\ Judge(Ev) \notin {"ok", "selfdestruct_missing"} \cup (IF Ev.e = "SelfDestruct" THEN SDRules ELSE {})
     /\ Reject(Judge(Ev))
     /\ skip' = TRUE /\ stats' = Bump(stats, "rejected")
     /\ l' = l + 1 /\ UNCHANGED <<pvars, pid>>
@@ -98,10 +121,10 @@ Finish ==
     /\ PrintT("INFO " \o ToJson([consumed |-> Len(Rec), stats |-> stats]))
     /\ l' = l + 1 /\ UNCHANGED <<pvars, pid, skip, stats>>
 
-TNext == NewProgram \/ Good \/ Bad \/ Skip \/ Finish
-TView == <<l>>
+TNext == NewProgram \/ Good \/ Bad \/ BadSelfDestruct \/ MissingSelfDestruct \/ Skip \/ Finish
+TView == <<l, owed>>
 
-\* the whole file was walked: Init, one state per record, one for Finish
-Consumed == \/ TLCGet("stats").diameter = Len(Rec) + 2
+\* the whole file was walked: Init, one state per record (one more per missing selfdestruct), one for Finish
+Consumed == \/ TLCGet("stats").diameter >= Len(Rec) + 2
             \/ (PrintT("INFO " \o ToJson([incomplete |-> TLCGet("stats").diameter, records |-> Len(Rec)])) /\ FALSE)
 =============================================================================
